@@ -37,6 +37,26 @@ def setup(bt, spec):
         # the security's parent is a sub-strategy with a commission schedule of its own (set on it directly, or before / after a different
         # one is pushed from the top of the tree): a trade is sized and charged with the schedule of the security's own parent
         u = spec["under"]
+        if u["order"] == "dynamic":
+            # the sleeve is opened inside a live tree (pairs-trading pattern) and brings its own spread table, which overrides the parent's
+            r = bt.core.StrategyBase("r", [])
+            rkw = dict(kw)
+            if "bidoffer" in kw:
+                rkw["bidoffer"] = kw["bidoffer"] * u.get("root_spread_x", 0.0)
+            r.setup(data, **rkw)
+            r.use_integer_positions(bool(spec["integer"]))
+            fee = interp.Fee(spec.get("fee"))
+            r.set_commissions(fee)
+            cap = _capital(spec)
+            r.adjust(3.0 * cap)
+            r.update(D0)
+            s = bt.core.StrategyBase("p", [sec], parent=r)
+            s.setup_from_parent(**kw)
+            sec = s["x"]
+            r.update(D0)
+            r.allocate(cap, "p")
+            r.update(D0)
+            return s, sec, fee
         r = bt.core.StrategyBase("r", [bt.core.StrategyBase("p", [sec])])
         s = r["p"]
         sec = s["x"]
@@ -340,6 +360,8 @@ def nested_alloc_spec(draw):
     order = draw(st.sampled_from(["sub_only", "root_then_sub"]))
     root_fee = {"kind": "none"} if order == "sub_only" else draw(st.sampled_from([{"kind": "none"}, {"kind": "prop", "r": 1e-4}, {"kind": "fixed", "f": 0.5 * unit}, {"kind": "unit", "k": 0.3 * unit}]))
     spec["under"] = {"order": order, "root_fee": root_fee}
+    if spec["spread"] is not None and draw(st.integers(0, 3)) == 0:
+        spec["under"] = {"order": "dynamic", "root_spread_x": draw(st.sampled_from([0.0, 3.0, 0.25]))}
     return spec
 
 
